@@ -238,7 +238,8 @@ def run(ctx):
                 cur = f.N[cur['else']] if cur.get('else') is not None else None
             if cur is None:
                 continue
-            fin = [a for a in f.walk(cur) if a['k'] == 'BinaryOperator' and a.get('op') == '=' and any(c.get('callee') in ('psf_lrint', 'psf_lrintf', 'lrint', 'lrintf') for c in f.calls(root=a))]
+            # the stored value must BE the rounded value (d = psf_lrint (X)), not an expression built from it (+ 128, << 8 ...): only then do the thresholds bound d itself
+            fin = [a for a in f.walk(cur) if a['k'] == 'BinaryOperator' and a.get('op') == '=' and f.unwrap(f.N[a['kids'][1]]).get('k') == 'CallExpr' and f.unwrap(f.N[a['kids'][1]]).get('callee') in ('psf_lrint', 'psf_lrintf', 'lrint', 'lrintf')]
             if len(fin) != 1:
                 continue
             a = fin[0]
